@@ -103,6 +103,13 @@ def load_baseline(prop: str) -> Optional[list[str]]:
     return json.load(open(p)).get(prop)
 
 
+def load_instances(prop: str) -> Optional[list[str]]:
+    p = os.path.join(VERIF, 'baseline_instances.json')
+    if not os.path.exists(p):
+        return None
+    return json.load(open(p)).get(prop)
+
+
 def finish(res: Result, *, tier: str, seed: int, t0: float, checker_cmd: str, assumptions: list[str],
            trusted_base: list[str], not_decided: list[str], replay, extra_cov: Optional[dict] = None,
            known_check=None, write_evidence=True) -> int:
@@ -201,6 +208,28 @@ def finish(res: Result, *, tier: str, seed: int, t0: float, checker_cmd: str, as
                 nviol += 1
                 exit_code = 1
                 break
+    # instance guard: an obligation INSTANCE (full name with its [case] tag) that is generated on the unchanged tree is no longer generated
+    # although its family still is - the path that carried it ended early (blocked, infeasible, aborted) on this tree.  The verifier has no
+    # verdict for that case: never "held".  The native battery is tried; otherwise the run is UNDECIDED.
+    vanished = []
+    inst = load_instances(prop)
+    if inst is not None and nviol == 0 and not res.errors and not res.crashes and not missing and os.environ.get('VERIF_ONLY') != '1':
+        have_f = {n.split('[')[0] for n in res.obligations}
+        vanished = [n for n in inst if n not in res.obligations and n.split('[')[0] in have_f]
+        if vanished:
+            name = f'{prop}.undecided[instances-vanished]'
+            ent = {'verdict': 'undecided', 'detail': f'{len(vanished)} obligation instances are no longer generated, e.g. {vanished[:3]}', 'model': None, 'path': [],
+                   'instances': 0, 'seconds': 0.0, 'backends': {}, 'trivial': 0}
+            try:
+                confirmed, path = replay(name, ent)
+            except Exception:
+                confirmed, path = None, None
+            if confirmed:
+                lines.append(f'VIOLATION property={prop} replay={path} obligation={name} (no verdict from the verifier: obligation instances such as '
+                             f'{vanished[0]} are no longer generated; native replay found the failing input)')
+                nviol += 1
+                exit_code = 1
+                vanished = []
     for name, kf, e in known_hits:
         try:
             confirmed, _p = replay(name, e)
@@ -211,7 +240,7 @@ def finish(res: Result, *, tier: str, seed: int, t0: float, checker_cmd: str, as
     if exit_code == 0:
         if res.crashes or missing:
             exit_code = 3
-        elif undecided or res.errors:
+        elif undecided or res.errors or vanished:
             exit_code = 2
         elif not res.obligations:
             exit_code = 3
@@ -220,6 +249,10 @@ def finish(res: Result, *, tier: str, seed: int, t0: float, checker_cmd: str, as
         lines.append(f'UNDECIDED property={prop} obligation={u} ({res.obligations[u]["detail"]})')
     for er in res.errors:
         lines.append(f'UNDECIDED property={prop} {er}')
+    for v in vanished[:5]:
+        lines.append(f'UNDECIDED property={prop} obligation instance no longer generated: {v}')
+    if len(vanished) > 5:
+        lines.append(f'UNDECIDED property={prop} ... and {len(vanished) - 5} more obligation instances no longer generated')
     for c in res.crashes:
         lines.append(f'CHECKER-ERROR property={prop} {c}')
     for m in missing:
